@@ -285,6 +285,7 @@ func runSoloCapped(st *trie.SlimTrie, u *Unit) (string, int64) {
 	rec := soloSiteRec
 	xsimrt.Hook = func(site int) {
 		n++
+		liveTicks++
 		if rec != nil {
 			rec[site]++
 		}
